@@ -247,8 +247,10 @@ pub fn notify_strategy() -> impl Strategy<Value = NotifyCase> {
 pub fn notify_from_words(w: &mut crate::words::Words) -> NotifyCase {
     use crate::words::draw;
     let max_count = draw(&prop_oneof![3 => Just(120u32), 1 => 1u32..6, 1 => 2u32..40], w.next());
-    let n = w.words_left().clamp(1, 11);
-    let op = (0u8..3, 0u8..3, prop_oneof![6 => 1u32..4, 2 => prop::sample::select(vec![119u32, 120, 121, 239, 240, 241]), 1 => 1u32..300]);
+    let n = w.words_left().clamp(1, 60);
+    // (longer inputs address more state keys: the key space grows with the number of operations)
+    let width: u8 = if n > 11 { 40 } else { 3 };
+    let op = (0u8..width, prop_oneof![6 => 0u8..3, 1 => 3u8..6], prop_oneof![6 => 1u32..4, 2 => prop::sample::select(vec![119u32, 120, 121, 239, 240, 241]), 1 => 1u32..300]);
     NotifyCase { max_count, ops: (0..n).map(|_| draw(&op, w.next())).collect() }
 }
 
